@@ -27,8 +27,10 @@ class SortedFacts:
         for c in (self.smap, self.sset):
             init = prog.method(c, "__init__")
             flds = []
+            iflow = Flow(init.node)
             for n in walk_own(init.node):
-                if isinstance(n, ast.Assign) and isinstance(n.value, ast.List) and not n.value.elts:
+                v_ = iflow.expand(n.value) if isinstance(n, ast.Assign) and isinstance(n.value, ast.Name) else getattr(n, "value", None)
+                if isinstance(n, ast.Assign) and isinstance(v_, ast.List) and not v_.elts:
                     for t in n.targets:
                         d = dotted(t)
                         if d and len(d) == 2 and d[0] == init.self_name and d[1] not in flds:
@@ -36,9 +38,14 @@ class SortedFacts:
             self.storage[c.qual] = flds
             probe = None
             for f in c.methods.values():
+                fflow = None
                 for call in calls_in(f.node):
                     if (ext_name(prog, f, call) or "").startswith("bisect.bisect") and call.args:
-                        d = dotted(call.args[0])
+                        a0 = call.args[0]
+                        if isinstance(a0, ast.Name):
+                            fflow = fflow or Flow(f.node)
+                            a0 = fflow.expand(a0)                  # `values = self.values; bisect_left(values, x)`
+                        d = dotted(a0)
                         if d and len(d) == 2 and d[0] == f.self_name and d[1] in flds:
                             self.key_storage[c.qual] = d[1]
                             probe = f
@@ -846,105 +853,250 @@ def r4_parallel(prog, rep: Report, sf: SortedFacts):
              "uses the index returned by insertions_index(<the key>), insertion only on the not-present branch, "
              "deletion/overwrite only on the present branch, and both arrays are changed together at the same index",
              floor=5)
+    # read off the path summaries (sa/paths.py): private helpers are followed, the probe is a leaf whose result is
+    # (index, present); named intermediate values and the arrangement of the branches do not matter
+    from ..paths import strip_versions, subterms, summaries, show
     for c, names in ((sf.smap, ["__setitem__", "__delitem__", "__getitem__"]), (sf.sset, ["add", "discard"])):
+        probe_name = sf.probe[c.qual].name
+        KS = ("attr", ("self",), sf.key_storage[c.qual])
+        VS = ("attr", ("self",), sf.value_storage(c)) if c is sf.smap else None
         for name in names:
             f = prog.method(c, name)
             rep.fn(f)
-            client = _Parallel(sf, c, f)
-            it = Interp(prog, client)
-            ex = it.run(f, {(None, ())}, c)
-            finals = ex.normal | ex.ret
-            if not client.index_names:
-                rep.unrec("C09.R4", f, "index", "no `i, present = self.insertions_index(key)` found")
+            key = ("p", f.params[1])
+
+            def inline(func, call, ctx, _pn=probe_name):
+                return func.name != _pn and func.cls is not None and not func.cls.is_external
+            ps, un = summaries(prog, f, c, inline=inline)
+            if un:
+                rep.unrec("C09.R4", f, "index", "; ".join(un))
                 continue
+
+            def is_probe(t):
+                return isinstance(t, tuple) and t[0] in ("eff", "mcall") and t[1] == probe_name and t[2] == ("self",) \
+                    and (t[3] if t[0] == "eff" else t[3]) == (key,)
+
+            def is_index(t):
+                t = strip_versions(t)
+                return isinstance(t, tuple) and t[0] == "sub" and is_probe(t[1]) and t[2] == ("c", 0)
+
+            def is_present(t):
+                t = strip_versions(t)
+                return isinstance(t, tuple) and t[0] == "sub" and is_probe(t[1]) and t[2] == ("c", 1)
+            probed = any(e[0] == "call" and e[1] == probe_name for p_ in ps for e in p_.events)
+            if not probed:
+                rep.unrec("C09.R4", f, "index", f"no call of self.{probe_name}(key) on any path")
+                continue
+            problems, n_ops = [], 0
+            lookup_ok = None
+            for p_ in ps:
+                present = None
+                for d, o in p_.decisions:
+                    t, neg = d, False
+                    while isinstance(t, tuple) and t and t[0] == "not":
+                        t, neg = t[1], not neg
+                    if is_present(t):
+                        present = (o != neg)
+                ops = {"K": [], "V": []}
+                for e in p_.events:
+                    kind = idx = arr = None
+                    if e[0] == "call" and e[1] in ("insert", "pop", "append", "remove", "clear", "extend", "sort", "reverse") and e[2] is not None:
+                        base = strip_versions(e[2])
+                        arr = "K" if base == KS else "V" if VS is not None and base == VS else None
+                        if arr:
+                            kind = {"insert": "insert", "pop": "remove"}.get(e[1], e[1])
+                            idx = e[3][0] if e[3] else None
+                            val = e[3][1] if len(e[3]) > 1 else None
+                    elif e[0] == "delitem":
+                        base = strip_versions(e[1])
+                        arr = "K" if base == KS else "V" if VS is not None and base == VS else None
+                        kind, idx, val = "remove", e[2], None
+                    elif e[0] == "setitem":
+                        base = strip_versions(e[1])
+                        arr = "K" if base == KS else "V" if VS is not None and base == VS else None
+                        kind, idx, val = "overwrite", e[2], e[3]
+                    if not arr:
+                        continue
+                    n_ops += 1
+                    if kind not in ("insert", "remove", "overwrite"):
+                        problems.append(f"`{kind}` on one of the storage arrays is not an index-aligned operation")
+                        continue
+                    if idx is None or not is_index(idx):
+                        problems.append(f"a storage {kind} uses the index `{show(idx) if idx is not None else '?'}`, not the index the probe "
+                                        "returned for the key")
+                    if kind == "insert" and present is not False:
+                        problems.append("an insertion happens on a path where the probe did not report the key absent")
+                    if kind in ("remove", "overwrite") and present is not True:
+                        problems.append(f"a {kind} happens on a path where the probe did not report the key present")
+                    if kind == "insert" and arr == "K" and val is not None and val != key:
+                        problems.append("the value inserted into the key storage is not the key")
+                    ops[arr].append((kind, strip_versions(idx) if idx is not None else None))
+                if VS is not None:
+                    k_struct = sorted(o_ for o_ in ops["K"] if o_[0] != "overwrite")
+                    v_struct = sorted(o_ for o_ in ops["V"] if o_[0] != "overwrite")
+                    if k_struct != v_struct:
+                        problems.append("operations on one array without the mirror operation on the other: "
+                                        f"keys {[o_[0] for o_ in k_struct]}, values {[o_[0] for o_ in v_struct]}")
+                    if any(o_[0] == "overwrite" for o_ in ops["K"]):
+                        problems.append("a key is overwritten in place")
+                if name == "__getitem__" and p_.exit == "return":
+                    v = strip_versions(p_.value)
+                    good = isinstance(v, tuple) and v[0] == "sub" and v[1] == VS and is_index(v[2]) and present is True
+                    lookup_ok = good if lookup_ok is None else (lookup_ok and good)
             if name == "__getitem__":
-                # lookup: the returned element is value_storage[index] on the present branch
-                good = False
-                for r in returns_of(f.node):
-                    v = r.value
-                    if isinstance(v, ast.Subscript) and dotted(v.value) == (f.self_name, sf.value_storage(c)) \
-                            and isinstance(v.slice, ast.Name) and v.slice.id in client.index_names:
-                        good = True
-                rep.check("C09.R4", f, "lookup", good and not client.problems,
-                          "lookup returns value_storage[index of the probe]",
-                          "lookup does not return value_storage[<index returned by the probe for the key>]"
-                          + "".join(f"; {p[1]}" for p in client.problems),
+                rep.check("C09.R4", f, "lookup", bool(lookup_ok) and not problems,
+                          "lookup returns value_storage[index of the probe] on the present branch",
+                          "lookup does not return value_storage[<index returned by the probe for the key>] on the present branch"
+                          + "".join(f"; {m}" for m in sorted(set(problems))),
                           scenario="m[k] returns the value of a neighbouring key")
                 continue
-            leftovers = sorted({p for s in finals for p in s[1] if p[0] != "rel"})
-            msgs = [p[1] for p in client.problems]
-            if leftovers:
-                msgs.append(f"operations on one array without the mirror operation on the other: {leftovers}")
-            rep.check("C09.R4", f, "aligned", not msgs and client.ops > 0,
-                      f"{client.ops} storage operations, index-aligned and on the right branch",
-                      "; ".join(sorted(set(msgs))) or "no storage operation found",
+            rep.check("C09.R4", f, "aligned", not problems and n_ops > 0,
+                      f"{n_ops} storage operations over {len(ps)} paths, index-aligned and on the right branch",
+                      "; ".join(sorted(set(problems))) or "no storage operation found",
                       scenario="keys and values drift apart: m[k] returns another key's value; or a present key is inserted "
-                               "twice / an absent key deletes its neighbour",
-                      line=client.problems[0][0] if client.problems else None)
+                               "twice / an absent key deletes its neighbour")
 
 
 def r5_provenance(prog, rep: Report, sf: SortedFacts):
     rep.rule("C09.R5", "probe shape: insertions_index bisects the key storage with bisect_left for the probed value, guards "
              "the equality probe storage[i] against i == len, and reports present only under the equality test", floor=2)
+    from ..absint import RaiseExc
+    from ..paths import strip_versions
+    from ..symenv import SymClient, run_sym
     for c in (sf.smap, sf.sset):
         f = sf.probe[c.qual]
         rep.fn(f)
         ks = sf.key_storage[c.qual]
         x = f.params[1]
-        idx_name = None
-        left = False
-        for n in walk_own(f.node):
-            if isinstance(n, ast.Assign) and isinstance(n.value, ast.Call) and len(n.targets) == 1 \
-                    and isinstance(n.targets[0], ast.Name):
-                name = ext_name(prog, f, n.value) or ""
-                if name.startswith("bisect."):
-                    idx_name = n.targets[0].id
-                    left = name == "bisect.bisect_left"
-                    args_ok = len(n.value.args) == 2 and dotted(n.value.args[0]) == (f.self_name, ks) \
-                        and isinstance(n.value.args[1], ast.Name) and n.value.args[1].id == x
-                    if not args_ok or n.value.keywords:
-                        left = False
-        if idx_name is None:
-            rep.unrec("C09.R5", f, "probe", "bisect result not bound to a local")
+        KS = ("attr", ("self",), ks)
+        X = ("p", x)
+
+        class _Probe(SymClient):
+            """insertions_index in one world: the bisect index equals len / the key there equals x / differs from x"""
+
+            def __init__(s_, world):
+                super().__init__()
+                s_.world = world
+                s_.bisects = set()
+                s_.undecided = []
+                s_._ver = 0
+
+            def should_inline(s_, func, call, ctx):
+                return func.cls is not None and not func.cls.is_external and func.name.startswith("_") and not func.name.startswith("__")
+
+            def refine(s_, test, state, ctx):
+                s_._ver = state[1]
+                return super().refine(test, state, ctx)
+
+            def handler_entry(s_, handler, trace_states, ctx):
+                names = {n_.id if isinstance(n_, ast.Name) else n_.attr for n_ in ast.walk(handler.type)
+                         if isinstance(n_, (ast.Name, ast.Attribute))} if handler.type is not None else {"BaseException"}
+                if names <= {"IndexError", "LookupError"} and s_.world in ("equal", "other"):
+                    return set()                  # the index is inside the storage in these worlds: no IndexError can arise
+                if names & {"TypeError"}:
+                    # an unorderable probe (the business of C09.R3): outside the three worlds
+                    return {(st_[0], st_[1], "typeerror") for st_ in trace_states}
+                return trace_states
+
+            def _is_I(s_, t):
+                return isinstance(t, tuple) and t[0] == "call" and t[1].startswith("bisect") and len(t[2]) >= 2 and t[2][0] == KS and t[2][1] == X
+
+            def _role(s_, t):
+                t = strip_versions(t)
+                if s_._is_I(t):
+                    return "I"
+                if t == ("call", "len", (KS,)) or t == ("call", "len", (("self",),)):
+                    return "LEN"
+                if isinstance(t, tuple) and t[0] == "sub" and t[1] == KS and s_._is_I(t[2]):
+                    return "AT"
+                if t == X:
+                    return "X"
+                return None
+
+            def decide(s_, term, node, env, user, ctx):
+                if s_.world is None:
+                    return None
+                t = term
+                neg = False
+                while t[0] == "not":
+                    t, neg = t[1], not neg
+                r = None
+                if t[0] == "cmp":
+                    a, b = s_._role(t[2]), s_._role(t[3])
+                    if {a, b} == {"I", "LEN"}:
+                        o = 0 if s_.world == "end" else -1          # I - LEN
+                        if a == "LEN":
+                            o = -o
+                        r = {"Lt": o < 0, "LtE": o <= 0, "Gt": o > 0, "GtE": o >= 0, "Eq": o == 0, "NotEq": o != 0}.get(t[1])
+                    elif {a, b} == {"AT", "X"} and t[1] in ("Eq", "NotEq") and s_.world in ("equal", "other"):
+                        r = (s_.world == "equal") == (t[1] == "Eq")
+                if r is None:
+                    s_.undecided.append(src(node))
+                    flagged = s_.pack(env, s_._ver, "undecided")
+                    return ((flagged,), (flagged,))
+                return r != neg
+
+            def on(s_, kind, node, env, ver, user, ctx):
+                if kind == "call" and isinstance(node, ast.Call):
+                    nm = ext_name(prog, ctx.func, node) or ""
+                    if nm.startswith("bisect."):
+                        s_.bisects.add((nm, tuple(strip_versions(s_.sym(a, env, ver, ctx)) for a in node.args), bool(node.keywords)))
+                if s_.world == "end" and kind == "subscript" and isinstance(node, ast.Subscript):
+                    if s_._role(s_.sym(node, env, ver, ctx)) == "AT":
+                        return RaiseExc(s_.pack(env, ver, user), "IndexError")
+                return None
+        disc = _Probe(None)
+        it0, _ = run_sym(prog, disc, f, c)
+        if it0.unrecognised or len(disc.bisects) != 1:
+            rep.unrec("C09.R5", f, "probe", "; ".join(it0.unrecognised) or f"expected one bisect call, found {len(disc.bisects)}")
             continue
-        # equality probe guarded
-        probe_ok = True
-        probe_seen = False
-        for n in walk_own(f.node):
-            if isinstance(n, ast.Subscript) and isinstance(n.ctx, ast.Load) and dotted(n.value) == (f.self_name, ks) \
-                    and isinstance(n.slice, ast.Name) and n.slice.id == idx_name:
-                probe_seen = True
-                if not _in_handler(n, ("IndexError", "LookupError", "Exception")) and not _guarded_by_len(n, idx_name):
-                    probe_ok = False
-        # returns
-        rets = returns_of(f.node)
-        true_rets = [r for r in rets if isinstance(r.value, ast.Tuple) and len(r.value.elts) == 2
-                     and const_value(r.value.elts[1]) is True]
-        false_rets = [r for r in rets if isinstance(r.value, ast.Tuple) and len(r.value.elts) == 2
-                      and const_value(r.value.elts[1]) is False]
-        shape = len(true_rets) >= 1 and len(false_rets) >= 1 and len(true_rets) + len(false_rets) == len(rets) \
-            and all(isinstance(r.value.elts[0], ast.Name) and r.value.elts[0].id == idx_name for r in rets)
-        eq_guard = True
-        for r in true_rets:
-            g = _enclosing_if(r)
-            ok = False
-            if g is not None and isinstance(g.test, ast.Compare) and len(g.test.ops) == 1 and isinstance(g.test.ops[0], ast.Eq):
-                sides = [g.test.left, g.test.comparators[0]]
-                has_x = any(isinstance(s, ast.Name) and s.id == x for s in sides)
-                ok = has_x and r in g.body
-            eq_guard = eq_guard and ok
+        nm, bargs, kw = next(iter(disc.bisects))
+        left = nm == "bisect.bisect_left" and bargs == (KS, X) and not kw
         rep.check("C09.R5", f, "bisect-left", left, f"insertion index = bisect_left(self.{ks}, {x})",
                   f"the insertion index is not bisect.bisect_left(self.{ks}, {x})",
                   scenario="with bisect_right a present key is never found (the probe looks one past it): duplicates are inserted")
-        if not probe_seen or not shape:
-            rep.unrec("C09.R5", f, "probe", "equality probe / (index, flag) returns not recognised")
+        if not (bargs == (KS, X) and not kw):
+            rep.unrec("C09.R5", f, "probe", "the bisect call is not over the key storage and the probed value")
             continue
-        rep.check("C09.R5", f, "probe-guarded", probe_ok, "storage[i] probe guarded against i == len",
-                  "the equality probe storage[i] is neither inside an IndexError handler nor guarded by i < len",
-                  scenario="probing with a value greater than every stored key raises IndexError")
-        rep.check("C09.R5", f, "present-iff-equal", eq_guard, "present is reported only under `storage[i] == x`",
-                  "a `return i, True` is not guarded by the equality test against the probed value",
-                  scenario="absent keys are reported present: add() drops new values / lookup returns a neighbour's value")
+        I = ("call", nm, (KS, X))
+        want = {"end": ("tuple", I, ("c", False)), "equal": ("tuple", I, ("c", True)), "other": ("tuple", I, ("c", False))}
+        res = {}
+        for world in ("end", "equal", "other"):
+            cl = _Probe(world)
+            it_, ex_ = run_sym(prog, cl, f, c)
+            if it_.unrecognised:
+                res[world] = ("unrec", "; ".join(it_.unrecognised))
+                continue
+            outs = {(("ret", strip_versions(cl.returned(st_))), st_[2] == "undecided") for st_ in ex_.ret | ex_.normal
+                    if st_[2] != "typeerror"} | \
+                   {(("exc", nm_), st_[2] == "undecided") for st_, nm_ in ex_.exc if st_[2] != "typeerror"}
+            wrong = [(o, u) for o, u in outs if o != ("ret", want[world])]
+            if not wrong:
+                res[world] = ("ok", "")
+            elif all(u for _, u in wrong):
+                res[world] = ("unrec", f"the outcome depends on a test that is not about the index, len or the probed key: {cl.undecided[:1]}")
+            else:
+                o = [o for o, u in wrong if not u][0]
+                res[world] = ("viol", "IndexError" if o == ("exc", "IndexError") else
+                              (f"raises {o[1]}" if o[0] == "exc" else "returns " + ("(i, True)" if o[1][-1:] == (("c", True),) else "something else")))
+        k_end, m_end = res["end"]
+        if k_end == "unrec":
+            rep.unrec("C09.R5", f, "probe-guarded", m_end)
+        else:
+            rep.check("C09.R5", f, "probe-guarded", k_end == "ok", "storage[i] probe guarded against i == len",
+                      f"when the insertion index equals the length the probe {m_end}: the equality probe storage[i] is neither inside an "
+                      "IndexError handler nor guarded by i < len",
+                      scenario="probing with a value greater than every stored key raises IndexError")
+        bad = [(w, m) for w, (k, m) in res.items() if w != "end" and k == "viol"]
+        un = [(w, m) for w, (k, m) in res.items() if w != "end" and k == "unrec"]
+        if bad:
+            rep.viol("C09.R5", f, "present-iff-equal", f"when the key at the insertion index is {'equal to' if bad[0][0] == 'equal' else 'different from'} "
+                     f"the probed value the probe {bad[0][1]}: present must be reported exactly under `storage[i] == x`",
+                     scenario="absent keys are reported present: add() drops new values / lookup returns a neighbour's value")
+        elif un:
+            rep.unrec("C09.R5", f, "present-iff-equal", un[0][1])
+        else:
+            rep.ok("C09.R5", f, "present-iff-equal", "(i, True) exactly when storage[i] == x, (i, False) otherwise (three worlds, every path)")
 
 
 def _guarded_by_len(n, idx_name) -> bool:
@@ -967,59 +1119,69 @@ def r6_validation(prog, rep: Report, sf: SortedFacts):
     f = prog.method(sf.smap, "__setitem__")
     rep.fn(f)
     key = f.params[1]
-    first = f.node.body[0] if f.node.body else None
-    if isinstance(first, ast.Expr) and isinstance(first.value, ast.Constant):
-        first = f.node.body[1] if len(f.node.body) > 1 else None
-    if not (isinstance(first, ast.If) and first.body and isinstance(first.body[-1], ast.Raise)):
-        rep.unrec("C09.R6", f, "validation", "first statement is not a raising validation test")
-        return
+    # one run per row of the truth table; what matters is what __setitem__ *does* for such a key (raise before touching the
+    # storage, or go on), not how the tests are arranged or named
+    from ..paths import strip_versions, summaries
+    K = ("p", key)
+    probe_name = sf.probe[sf.smap.qual].name
 
-    def ev(e, env) -> Optional[bool]:
-        if isinstance(e, ast.BoolOp):
-            vals = [ev(v, env) for v in e.values]
-            if None in vals:
+    def assume_row(env):
+        def a(term):
+            t, neg = term, False
+            while isinstance(t, tuple) and t and t[0] == "not":
+                t, neg = t[1], not neg
+            t = strip_versions(t)
+            r = None
+            if t[0] == "call" and t[1] == "isinstance" and len(t[2]) == 2 and t[2][0] == K:
+                ty = t[2][1]
+                names = [x[1] for x in (ty[1:] if ty[0] == "tuple" else (ty,)) if isinstance(x, tuple) and x[0] == "free"]
+                if names and set(names) <= {"int", "float"} and len(names) == (len(ty) - 1 if ty[0] == "tuple" else 1):
+                    r = any(env[n] for n in names)
+            elif t[0] == "cmp" and t[2] == K and t[3] == K and t[1] in ("NotEq", "Eq"):
+                r = env["nan"] if t[1] == "NotEq" else not env["nan"]
+            elif t[0] == "call" and t[1] in ("math.isnan", "isnan") and t[2] == (K,):
+                r = env["nan"]
+            if r is None:
                 return None
-            return all(vals) if isinstance(e.op, ast.And) else any(vals)
-        if isinstance(e, ast.UnaryOp) and isinstance(e.op, ast.Not):
-            v = ev(e.operand, env)
-            return None if v is None else not v
-        if isinstance(e, ast.Call) and src(e.func) == "isinstance" and len(e.args) == 2 and src(e.args[0]) == key:
-            t = e.args[1]
-            names = [src(x) for x in (t.elts if isinstance(t, ast.Tuple) else [t])]
-            if set(names) <= {"int", "float"}:
-                return any(env[n] for n in names)
-            return None
-        if isinstance(e, ast.Compare) and len(e.ops) == 1 and src(e.left) == key and src(e.comparators[0]) == key:
-            if isinstance(e.ops[0], ast.NotEq):
-                return env["nan"]
-            if isinstance(e.ops[0], ast.Eq):
-                return not env["nan"]
-        if isinstance(e, ast.Call) and src(e.func) in ("math.isnan", "isnan") and src(e.args[0]) == key:
-            return env["nan"]
-        return None
-
+            return r != neg
+        return a
     rows = []
-    good = True
+    bad, undecided = [], []
     for i in (False, True):
         for fl in (False, True):
             for nan in (False, True):
-                if nan and not fl:
-                    continue  # NaN is a float
-                if i and fl:
-                    continue
+                if (nan and not fl) or (i and fl):
+                    continue                       # NaN is a float; a value has one type
                 env = {"int": i, "float": fl, "nan": nan}
-                got = ev(first.test, env)
                 want = (not (i or fl)) or nan
-                rows.append({"int": i, "float": fl, "nan": nan, "raises": got, "expected": want})
-                if got is None:
-                    rep.unrec("C09.R6", f, "validation", f"validation test not evaluable: {src(first.test)}")
+
+                def inline(func, call, ctx):
+                    return func.name != probe_name and func.cls is not None and not func.cls.is_external
+                ps, un = summaries(prog, f, sf.smap, assume=assume_row(env), inline=inline)
+                if un:
+                    rep.unrec("C09.R6", f, "validation", "; ".join(un))
                     return
-                good = good and got == want
+                got = set()
+                for p_ in ps:
+                    touched = any(e[0] in ("setitem", "delitem") or (e[0] == "call" and e[1] in (probe_name, "insert", "append", "pop"))
+                                  for e in p_.events)
+                    rejected = p_.exit == "raise:TypeError" and not touched
+                    # tests that are not about the key's type (present / absent) do not matter as long as both arms agree
+                    got.add(rejected)
+                rows.append({"int": i, "float": fl, "nan": nan, "raises": sorted(got), "expected": want})
+                if got != {want}:
+                    (bad if len(got) == 1 else undecided).append(env)
     rep.count("truth_table_rows", len(rows))
-    rep.check("C09.R6", f, "validation", good, f"rejects exactly non-numeric and NaN keys ({len(rows)} rows)",
-              f"validation `{src(first.test)}` does not reject exactly the non-numeric and NaN keys",
-              witness=rows, scenario="m[float('nan')] = 1 is accepted: NaN compares unequal to itself, is never found "
-                                     "again and breaks the order; or m[1.5] = x is rejected")
+    if bad:
+        rep.viol("C09.R6", f, "validation", f"for a key with {bad[0]} __setitem__ does not " +
+                 ("reject it with TypeError before touching the storage" if ((not (bad[0]['int'] or bad[0]['float'])) or bad[0]['nan']) else "accept it") +
+                 ": the validation does not reject exactly the non-numeric and NaN keys", witness=rows,
+                 scenario="m[float('nan')] = 1 is accepted: NaN compares unequal to itself, is never found "
+                          "again and breaks the order; or m[1.5] = x is rejected")
+    elif undecided:
+        rep.unrec("C09.R6", f, "validation", f"for a key with {undecided[0]} the outcome depends on a test that is not about the key's type")
+    else:
+        rep.ok("C09.R6", f, "validation", f"rejects exactly non-numeric and NaN keys, before the storage is touched ({len(rows)} rows, every path)")
 
 
 # ---------------------------------------------------------------------------------------------- R7
